@@ -100,6 +100,42 @@ def poly_scale(a, q):
 POLY_ONE = {(): Q(1)}
 
 
+def mono_content(polys):
+    """Largest monomial (constant exponents only) dividing every term of every polynomial given."""
+    common = None
+    for p in polys:
+        for m in p:
+            d = {k: lf_constpart(e) for k, e in m if lf_is_const(e)}
+            if common is None:
+                common = d
+            else:
+                common = {k: (min(v, d[k]) if (v > 0) == (d[k] > 0) else 0) for k, v in common.items() if k in d}
+                common = {k: v for k, v in common.items() if v != 0}
+            if not common:
+                return ()
+    if not common:
+        return ()
+    # only atoms whose exponent has the same sign in every term are extracted (min in absolute value)
+    out = {}
+    for k, v in common.items():
+        vals = []
+        for p in polys:
+            for m in p:
+                for kk, e in m:
+                    if kk == k:
+                        vals.append(lf_constpart(e))
+        if all(x > 0 for x in vals):
+            out[k] = min(vals)
+        elif all(x < 0 for x in vals):
+            out[k] = max(vals)
+    return tuple(sorted((k, lf_const(v)) for k, v in out.items()))
+
+
+def poly_div_mono(p, m):
+    inv = tuple((k, lf_scale(e, -1)) for k, e in m)
+    return {mono_mul(mm, inv): c for mm, c in p.items()}
+
+
 def poly_is_const(p):
     return all(m == () for m in p)
 
@@ -232,6 +268,9 @@ class NF(object):
         n, d = r
         if not n:
             return "0"
+        mc = mono_content([n, d])
+        if mc:
+            n, d = poly_div_mono(n, mc), poly_div_mono(d, mc)
         lead = sorted(d.items(), key=lambda kv: repr(kv[0]))[0][1]
         n = poly_scale(n, 1 / lead)
         d = poly_scale(d, 1 / lead)
@@ -308,6 +347,14 @@ class NF(object):
                 return None
             cp = self._const_pow(c, e)
             return (self.pmul(cp, {mp: Q(1)}), POLY_ONE)
+        # monomial content: (m * P)^e = m^e * P^e  (atoms of m are required positive: side conditions)
+        mc = tuple((k, e_) for k, e_ in mono_content([p]) if k[0] in "vp")
+        if mc:
+            rest = self._poly_frac_pow(poly_div_mono(p, mc), e, term_of_poly)
+            mp = self._mono_pow(mc, e)
+            if rest is None or mp is None:
+                return None
+            return (self.pmul(rest[0], self.pmul({mp: Q(1)}, POLY_ONE)), rest[1])
         # primitive part: divide by the coefficient of the first monomial in canonical order
         lead = sorted(p.items(), key=lambda kv: repr(kv[0]))[0][1]
         if lead < 0:
